@@ -131,13 +131,15 @@ type CfgJSON struct {
 	PCTLen   int     `json:"pct_len,omitempty"`
 	StickyP  float64 `json:"sticky_p,omitempty"`
 	RandMode int     `json:"rand_mode,omitempty"`
+	StallP   float64 `json:"stall_p,omitempty"`
+	StallDurs []time.Duration `json:"stall_durs,omitempty"`
 }
 
 func cfgToJSON(c simrt.Config) CfgJSON {
-	return CfgJSON{c.Seed, c.Strategy, c.PCTDepth, c.PCTLen, c.StickyP, c.RandMode}
+	return CfgJSON{c.Seed, c.Strategy, c.PCTDepth, c.PCTLen, c.StickyP, c.RandMode, c.StallP, c.StallDurs}
 }
 func (c CfgJSON) cfg() simrt.Config {
-	return simrt.Config{Seed: c.Seed, Strategy: c.Strategy, PCTDepth: c.PCTDepth, PCTLen: c.PCTLen, StickyP: c.StickyP, RandMode: c.RandMode}
+	return simrt.Config{Seed: c.Seed, Strategy: c.Strategy, PCTDepth: c.PCTDepth, PCTLen: c.PCTLen, StickyP: c.StickyP, RandMode: c.RandMode, StallP: c.StallP, StallDurs: c.StallDurs}
 }
 
 // WorkerOut is what a search worker reports.
@@ -270,6 +272,10 @@ func (s *searcher) runCase(seed uint64) {
 	c := s.p.Gen(r, s.tier)
 	if c.Cfg.Seed == 0 && c.Cfg.Replay == nil {
 		c.Cfg = swarmConfig(r, seed, 150)
+		if s.p.Stalls && r.P(0.25) {
+			c.Cfg.StallP = pick(r, 0.01, 0.05)
+			c.Cfg.StallDurs = []time.Duration{1, time.Millisecond, 7 * time.Millisecond, 30 * time.Millisecond}
+		}
 	}
 	base := s.runOne(seed, c.Sc, c.Cfg, nil)
 	if !c.Sweep || base == nil {
@@ -432,6 +438,9 @@ func commonChecks(c *checkCtx) {
 	}
 	if res.Out.Foreign > 0 {
 		c.cov("uncontrolled_block")
+	}
+	if res.Out.Stalls > 0 {
+		c.Cov["fault.stall"] += res.Out.Stalls
 	}
 	for _, v := range c.Views {
 		if v.Cancel0 != nil {
